@@ -5,12 +5,15 @@ import (
 	"encoding/base64"
 	"encoding/binary"
 	"fmt"
+	"os"
+	"path/filepath"
 	"runtime"
 	"sort"
 	"strings"
 	"time"
 
 	"github.com/akrylysov/pogreb"
+	"github.com/akrylysov/pogreb/fs"
 	"github.com/akrylysov/pogreb/zzverif/explore"
 	"github.com/akrylysov/pogreb/zzverif/refmodel"
 	"github.com/akrylysov/pogreb/zzverif/simfs"
@@ -446,7 +449,18 @@ func runC19(c *explore.Ctx) {
 						binary.LittleEndian.PutUint32(hdr[2:6], v)
 						data := append(append(append([]byte(nil), sb...), hdr...), follow[fn]...)
 						desc := fmt.Sprintf("header keySize=%d valueSize=%d delete=%v followed by %s appended to %s", ks, vs, del, fn, segName)
-						if msg := c19Case(c, d, segName, data, desc); msg != "" {
+						msg := c19Case(c, d, segName, data, desc)
+						if msg == "" && (vs == 1<<20 || vs == 1<<24 || vs == 1<<28) && (ks == 0 || ks == 65535) && (fn == "none" || fn == "ff1000") {
+							// the same image on the real file systems: the bound must not depend on how a FileSystem's
+							// Slice/ReadAt happen to treat a request that runs past the end of the file
+							for _, kind := range []string{"os", "osmmap"} {
+								if msg = c19RealCase(c, d, segName, data, kind); msg != "" {
+									msg = "on fs=" + kind + ": " + msg
+									break
+								}
+							}
+						}
+						if msg != "" {
 							if c.Violation(explore.Violation{
 								Key:    "cost: " + desc,
 								What:   desc + ": " + msg,
@@ -461,6 +475,53 @@ func runC19(c *explore.Ctx) {
 			}
 		}
 	}
+}
+
+// c19RealCase recovers the damaged directory through fs.OS / fs.OSMMap (scratch directory under /dev/shm).
+func c19RealCase(c *explore.Ctx, d *tailDir, segName string, data []byte, kind string) string {
+	img := d.Img.Clone()
+	img.SetBytes(explore.DBPath+"/"+segName, data)
+	files := explore.SegmentFiles(img)
+	want := explore.ModelFromDecode(refmodel.ReplayDir(files))
+	var totalSeg int64
+	for _, b := range files {
+		totalSeg += int64(len(b))
+	}
+	dir, err := os.MkdirTemp("/dev/shm", "pogverif-c19-")
+	if err != nil {
+		return ""
+	}
+	defer os.RemoveAll(dir)
+	var fsys fs.FileSystem = fs.OS
+	if kind == "osmmap" {
+		fsys = fs.OSMMap
+	}
+	if err := copyImage(img, fsys, filepath.Join(dir, "db")); err != nil {
+		return ""
+	}
+	c.Add("images", 1)
+	c.Add("real_fs_cases", 1)
+	runtime.GC()
+	var ms0, ms1 runtime.MemStats
+	runtime.ReadMemStats(&ms0)
+	explore.PinSeed(0)
+	db, err := pogreb.Open(filepath.Join(dir, "db"), d.Cfg.Options(fsys))
+	runtime.ReadMemStats(&ms1)
+	if err != nil {
+		return "recovering Open failed: " + err.Error()
+	}
+	defer db.Close()
+	if alloc := int64(ms1.TotalAlloc - ms0.TotalAlloc); alloc > c19AllocBound(totalSeg) {
+		return fmt.Sprintf("recovery allocated %d bytes for %d bytes of segment files (bound 8x + 4 MiB)", alloc, totalSeg)
+	}
+	all, err := explore.ReadAll(db)
+	if err != nil {
+		return err.Error()
+	}
+	if !want.Equal(all) {
+		return "contents after recovery differ from the replay of the valid record prefixes"
+	}
+	return ""
 }
 
 func c19Case(c *explore.Ctx, d *tailDir, segName string, data []byte, desc string) string {
@@ -526,10 +587,11 @@ func init() {
 		DistinctClass: "image",
 	})
 	explore.Register(&explore.CheckInfo{
-		Prop:  "C19",
-		Level: "fault_enumeration",
+		Prop:      "C19",
+		ASLimitMB: 1 << 20, // fs.OSMMap reserves 1 GiB of address space per open file
+		Level:     "fault_enumeration",
 		Rule: "after the last valid record of the newest / the oldest segment of a 3-segment directory: every 6-byte header from keySize {0,1,255,256,32767,65535} x valueSize {0,1,2^8,2^12,2^16,2^20,2^24,2^28,2^30,2^31-1, exactly-to-EOF, EOF+1} x {put,delete} followed by {nothing, 3/4/1000 zero bytes, 1000 0xFF bytes, two valid records}; " +
-			"oracle: Open nil, contents == valid prefix, largest single read requested from the file system <= total segment bytes + 4096, bytes allocated during Open <= 8 x segment bytes + 4 MiB; distinct_nontrivial = distinct images",
+			"oracle: Open nil, contents == valid prefix, largest single read requested from the file system <= total segment bytes + 4096, bytes allocated during Open <= 8 x segment bytes + 4 MiB; distinct_nontrivial = distinct images; a subset (valueSize 2^20/2^24/2^28, keySize 0/65535) is additionally recovered through the real fs.OS and fs.OSMMap with the same allocation bound",
 		Assumptions:   []string{"header alphabet contains the maxima of both length fields; allocation is monotone in the claimed sizes", "allocation measured with runtime.MemStats.TotalAlloc in a worker that runs one case at a time"},
 		QuickBudget:   100 * time.Second,
 		ThorBudget:    10 * time.Minute,
